@@ -43,7 +43,11 @@ def buildFrom (t : Tab) (k : Nat) : List Nat → Option Tab
     | some t' => buildFrom t' (k + 1) hs
 
 /-- builder: table of `(2·count).nextPowerOfTwo` slots, index width = bits needed for `count` -/
-def tableSize (count : Nat) : Nat := Nat.nextPowerOfTwo (2 * count)
+def nextPow2 : Nat → Nat → Nat → Nat
+  | 0, p, _ => p
+  | f + 1, p, n => if p < n then nextPow2 f (p * 2) n else p
+/-- `(2·count).next_power_of_two()` (1 for an empty archive) -/
+def tableSize (count : Nat) : Nat := nextPow2 (2 * count) 1 (2 * count)
 def build (hashes : List Nat) : Option Tab :=
   buildFrom (init (tableSize hashes.length) (Bet.bitsNeeded hashes.length)) 0 hashes
 
